@@ -78,8 +78,33 @@ u64 __verif_fshr64(u64 a, u64 b, u64 c) { c &= 63; return c ? (a << (64 - c)) | 
 int __verif_memo_miss = 0;
 #ifdef __CPROVER__
 #define MEMO_SLOTS 2
+/* mode 0 (default): small value-keyed memo, used when implementation and reference each perform one or two products.
+ * mode 1 "record": every product is computed and appended to a log (the implementation runs in this mode).
+ * mode 2 "replay": a product is looked up in the log by its operands (the reference model runs in this mode); a product that
+ *        differs from the log entry at the same position fails the "lockstep" assertion, and every other verdict of the run
+ *        is only meaningful when that assertion passes; the driver then re-runs the obligation without sharing (-DNO_LOCKSTEP).
+ * Either way a value handed out is exactly a*b; what is shared is the multiplier circuit (DESIGN.md 1.5). */
+int __verif_seq_mode = 0;
+#define SEQ_MAX 40
+
+static u64 sq_a[SEQ_MAX], sq_b[SEQ_MAX], sq_p[SEQ_MAX]; static int sq_n = 0;
+static int sq_i = 0;
+void __verif_seq(int mode) { __verif_seq_mode = mode; if (mode == 1) sq_n = 0; sq_i = 0; }
+u64 nondet_u64(void);
+static u64 seq_mul(u64 a, u64 b, int w32) {
+  if (__verif_seq_mode == 1) {
+    RT_ASSERT(sq_n < SEQ_MAX, "product log full");
+    sq_a[sq_n] = a; sq_b[sq_n] = b; sq_p[sq_n] = w32 ? (u64)((u32)a * (u32)b) : a * b; return sq_p[sq_n++];
+  }
+  /* replay: the k-th product of the reference must be the k-th product of the implementation */
+  RT_ASSERT(sq_i < sq_n && ((a == sq_a[sq_i] && b == sq_b[sq_i]) || (a == sq_b[sq_i] && b == sq_a[sq_i])),
+            "lockstep: the reference model multiplies the same operands in the same order as the implementation");
+  if (sq_i >= sq_n) return nondet_u64();
+  return sq_p[sq_i++];
+}
 static u64 mm_a[MEMO_SLOTS], mm_b[MEMO_SLOTS], mm_p[MEMO_SLOTS]; static int mm_n = 0;
 u64 __verif_mul64(u64 a, u64 b) {
+  if (__verif_seq_mode) return seq_mul(a, b, 0);
   for (int i = 0; i < MEMO_SLOTS; i++)
     if (i < mm_n && ((a == mm_a[i] && b == mm_b[i]) || (a == mm_b[i] && b == mm_a[i]))) return mm_p[i];
   if (mm_n < MEMO_SLOTS) { mm_a[mm_n] = a; mm_b[mm_n] = b; mm_p[mm_n] = a * b; return mm_p[mm_n++]; }
@@ -88,6 +113,7 @@ u64 __verif_mul64(u64 a, u64 b) {
 }
 static u32 m3_a[MEMO_SLOTS], m3_b[MEMO_SLOTS], m3_p[MEMO_SLOTS]; static int m3_n = 0;
 u32 __verif_mul32(u32 a, u32 b) {
+  if (__verif_seq_mode) return (u32)seq_mul(a, b, 1);
   for (int i = 0; i < MEMO_SLOTS; i++)
     if (i < m3_n && ((a == m3_a[i] && b == m3_b[i]) || (a == m3_b[i] && b == m3_a[i]))) return m3_p[i];
   if (m3_n < MEMO_SLOTS) { m3_a[m3_n] = a; m3_b[m3_n] = b; m3_p[m3_n] = a * b; return m3_p[m3_n++]; }
@@ -106,6 +132,8 @@ u64 __verif_urem64(u64 a, u64 b) { int i = divmemo(a, b); return i >= 0 ? dm_r[i
 u32 __verif_udiv32(u32 a, u32 b) { return (u32)__verif_udiv64(a, b); }
 u32 __verif_urem32(u32 a, u32 b) { return (u32)__verif_urem64(a, b); }
 #else
+int __verif_seq_mode = 0;
+void __verif_seq(int mode) { (void)mode; }
 u64 __verif_mul64(u64 a, u64 b) { return a * b; }
 u32 __verif_mul32(u32 a, u32 b) { return a * b; }
 u64 __verif_udiv64(u64 a, u64 b) { return a / b; }
